@@ -640,7 +640,31 @@ def r17_10(chk):
     chk.floor("R17.10", 2, "construction and fill of the union")
 
 
+def r17_11(chk):
+    chk.rule("R17.11", "reloading preserves the multiset of records and leaves the original alone: from_dict builds the db that receives the serialised records EMPTY -- the constructor arguments taken from the dict do not include the `source` the original was connected to (cls(source=<that file>) opens the file that already holds the records, and the insert doubles them there)")
+    m = chk.repo.module(DB)
+    fn = m.func("SqliteAnnotationDbMixin.from_dict")
+    ctor = [c for c in walk_no_nested(fn) if isinstance(c, ast.Call) and norm(c.func) in ("cls", "self.__class__")]
+    if not ctor:
+        raise AnalysisError("from_dict: construction of the db not found")
+    for c in ctor:
+        spread = [kw.value for kw in c.keywords if kw.arg is None and isinstance(kw.value, ast.Name)]
+        names_src = any(kw.arg == "source" for kw in c.keywords)
+        removed = False
+        for nm in spread:
+            for x in walk_no_nested(fn):
+                if isinstance(x, ast.Call) and isinstance(x.func, ast.Attribute) and x.func.attr == "pop" and norm(x.func.value) == nm.id and x.args and isinstance(x.args[0], ast.Constant) and x.args[0].value == "source":
+                    removed = True
+                if isinstance(x, ast.Delete) and any(norm(t) == f"{nm.id}['source']" for t in x.targets):
+                    removed = True
+                if isinstance(x, ast.Assign) and norm(x.targets[0]) == f"{nm.id}['source']":
+                    removed = True
+        chk.decide((not spread or removed) and not names_src, "R17.11", key(m, "SqliteAnnotationDbMixin.from_dict", "receiving db is built empty"), m.loc(c), "the serialised `source` is dropped before the constructor call", f"`{norm(c)}` passes the serialised constructor arguments on unchanged, `source` included: for a file-backed db the JSON round trip re-opens the original's file and inserts every record into it again (1 record becomes 2 in both)")
+    chk.floor("R17.11", 1, "one deserialiser")
+
+
 def run(chk):
+    r17_11(chk)
     r17_10(chk)
     r17_9(chk)
     r17_8(chk)
